@@ -705,12 +705,96 @@ func c19Sinks(w *W) {
 	w.Sample(map[string]any{"sink_scenarios": len(sc)})
 }
 
+// c19DirReplaced: an operator (or a logrotate-like tool) moves the log directory aside and creates a fresh one under the same
+// name while the appender runs: `mv logs logs.1 && mkdir logs`. Nothing already written is lost (it is in logs.1), the writes
+// go on without a panic, and from the first boundary after the replacement the files are created where the configuration
+// says: in the directory of that NAME.
+func c19DirReplaced(w *W) {
+	dir := filepath.Join(w.Spec.Dir, w.Spec.Name+".d")
+	moved := dir + ".1"
+	_ = os.RemoveAll(dir)
+	_ = os.RemoveAll(moved)
+	_ = os.MkdirAll(dir, 0755)
+	defer os.RemoveAll(dir)
+	defer os.RemoveAll(moved)
+	cs := map[string]any{"scenario": "mv logs logs.1 && mkdir logs while the appender runs", "symlinked": w.Spec.Shard%2 == 1}
+	cfgDir := dir
+	if w.Spec.Shard%2 == 1 {
+		// the configured directory is a symbolic link that the operator re-points
+		cfgDir = dir + ".link"
+		_ = os.Remove(cfgDir)
+		_ = os.Symlink(dir, cfgDir)
+		defer os.Remove(cfgDir)
+	}
+	ap := &log.RollingFileAppender{AppenderBase: log.AppenderBase{Name: "roll"}, Layout: &log.TextLayout{}, FileDir: cfgDir, FileName: "rep.log", Rotation: log.TimeRotation{Interval: time.Second}, MaxAge: 24}
+	for time.Now().Nanosecond() > 200_000_000 {
+		time.Sleep(5 * time.Millisecond)
+	}
+	if err := ap.Start(); err != nil {
+		w.Violate("C19:start-failed", err.Error(), cs)
+		return
+	}
+	type wr struct {
+		id    string
+		start time.Time
+	}
+	var wrs []wr
+	t0 := time.Now().Truncate(time.Second)
+	var replacedAt time.Time
+	for i := 0; time.Since(t0) < 4400*time.Millisecond; i++ {
+		if replacedAt.IsZero() && time.Since(t0) > 1300*time.Millisecond {
+			if cfgDir == dir {
+				_ = os.Rename(dir, moved)
+				_ = os.MkdirAll(dir, 0755)
+			} else {
+				_ = os.MkdirAll(moved, 0755)
+				_ = os.Remove(cfgDir)
+				_ = os.Symlink(moved, cfgDir) // from now on the name leads to another directory
+			}
+			replacedAt = time.Now()
+		}
+		id := fmt.Sprintf("id-rep%d-%d", w.Spec.Shard, i)
+		x := wr{id, time.Now()}
+		if pv, st := catch(func() { ap.Write([]byte(id + " line\n")) }); pv != nil {
+			w.Violate("C19:write-panic", fmt.Sprintf("[dir-replaced] Write panicked: %v\n%s", pv, trunc(st, 800)), cs)
+			return
+		}
+		wrs = append(wrs, x)
+		time.Sleep(15 * time.Millisecond)
+	}
+	ap.Stop()
+	// where the name leads after the replacement, and the other place
+	newPlace, oldPlace := dir, moved
+	if cfgDir != dir {
+		newPlace, oldPlace = moved, dir
+	}
+	inNew, inOld := idsIn(readDirAll(newPlace)), idsIn(readDirAll(oldPlace))
+	firstBoundary := replacedAt.Truncate(time.Second).Add(time.Second)
+	w.Eval(1)
+	for _, x := range wrs {
+		n := inNew[x.id] + inOld[x.id]
+		if n != 1 {
+			w.Violate("C19:accepted-write-lost", fmt.Sprintf("[dir-replaced] %s is in the two directories %d times", x.id, n), cs)
+			return
+		}
+		if x.start.After(firstBoundary.Add(50*time.Millisecond)) && inNew[x.id] != 1 {
+			w.Violate("C19:no-retry-after-restore", fmt.Sprintf("[dir-replaced] the directory was replaced at %s; %s, written at %s (after the next boundary), is not in a file under the configured directory name but in the directory that was moved aside", replacedAt.Format("15:04:05.000"), x.id, x.start.Format("15:04:05.000")), cs)
+			return
+		}
+	}
+	w.Count("writes_checked", int64(len(wrs)))
+	w.Distinct(fmt.Sprintf("dir-replaced|symlink=%v", cfgDir != dir))
+	w.Sample(cs)
+}
+
 func c19Worker(w *W) {
 	switch w.Spec.Kind {
 	case "outage":
 		c19Outage(w)
 	case "sinks":
 		c19Sinks(w)
+	case "replaced":
+		c19DirReplaced(w)
 	}
 }
 
@@ -719,7 +803,7 @@ func init() {
 		ID: "C19", Level: "fault_enumeration", MinDistinct: 10, Worker: c19Worker,
 		Rule: "faults: (a) the log directory of a running rolling appender (1 s interval) is renamed away and back - or replaced by a regular file - at 12 enumerated placements relative to real boundaries, plus 3 placements in which the process runs out of descriptors instead (EMFILE on create), (covering one, two, three or eleven (thorough: forty) boundaries, starting right after a successful rotation, restored 40 ms before / after a boundary, two separate outages, back-to-back outages, outage at the first boundary, outage inside one interval only; thorough adds 12 offset sweeps) x {1,2,4} writers issuing self-describing records with call stamps, the target written in three spellings of (fileDir, fileName) - plain, empty fileDir with the whole path in fileName, path split in the middle -, several writers held together (3 ms) at the interval check of each boundary; a call during which another writer completes 300 calls and a boundary passes counts as blocked; " +
 			"oracle: no panic, every record present whole exactly once after the restore, every boundary lying outside all outages has a file created in its interval (creation retried), a sequential writer's post-boundary writes are not in an older file. (b) 14 sink-failure scenarios (one of them: the retention scan runs while the directory entries it lists are being removed): File/RollingFile appenders never started, after Stop, on /dev/full, with a missing directory at Start and at rotation, directory removed while open; console stream replaced by an erroring writer, a short writer, a closed file, a read-only file - Append and Write must return without panic or block. " +
-			"Non-trivial/distinct = distinct (placement, writers) runs + sink scenarios that held.",
+			"(c) the log directory is moved aside and a fresh one created under the same name (or the symbolic link that is the configured directory is re-pointed) while the appender runs: nothing lost, and from the next boundary on the files appear under the configured name. Non-trivial/distinct = distinct (placement, writers) runs + sink scenarios that held.",
 		Assumptions: []string{"the outage is produced by rename(2), so descriptors already open stay valid (that is what 'keeps writing to the file it already has' relies on)", "boundaries closer than 30 ms to an outage edge are not judged for retry"},
 		Run: func(d *D) {
 			var specs []Spec
@@ -753,6 +837,11 @@ func init() {
 			s := d.NewSpec("sinks", "sinks", 0, 1)
 			s.TimeoutS = 300
 			specs = append(specs, s)
+			for i := 0; i < 2; i++ {
+				rs := d.NewSpec("replaced", fmt.Sprintf("replaced-%d", i), i, 2)
+				rs.TimeoutS = 120
+				specs = append(specs, rs)
+			}
 			d.RunWorkers(specs, 16)
 			d.Extra["fault_placements"] = len(pls)
 		},
